@@ -16,4 +16,5 @@ SPEC = {
 def run(ctx):
     bpfdir = verif_bpf.setup(ctx)
     rc = verif.standard_check(ctx, SPEC)
-    return verif_bpf.post(ctx, rc, bpfdir, ["qos_ratelimit"])
+    asan = None if ctx.replay else verif_bpf.asan_run(ctx, SPEC, "VERIF_C19_ASAN")
+    return verif_bpf.post(ctx, rc, bpfdir, ["qos_ratelimit"], asan)
